@@ -447,8 +447,14 @@ impl<'a, 'tcx> Cx<'a, 'tcx> {
 
     fn operand(&self, op: &mir::Operand<'tcx>) -> J {
         match op {
-            mir::Operand::Copy(p) => J::obj().set("k", J::s("copy")).set("p", self.place(p)),
-            mir::Operand::Move(p) => J::obj().set("k", J::s("move")).set("p", self.place(p)),
+            mir::Operand::Copy(p) => J::obj()
+                .set("k", J::s("copy"))
+                .set("p", self.place(p))
+                .set("ty", J::s(p.ty(self.body, self.tcx).ty.to_string())),
+            mir::Operand::Move(p) => J::obj()
+                .set("k", J::s("move"))
+                .set("p", self.place(p))
+                .set("ty", J::s(p.ty(self.body, self.tcx).ty.to_string())),
             mir::Operand::Constant(c) => self.constant(c),
             mir::Operand::RuntimeChecks(rc) => {
                 J::obj().set("k", J::s("rtcheck")).set("name", J::s(format!("{:?}", rc)))
@@ -764,6 +770,7 @@ impl<'a, 'tcx> Cx<'a, 'tcx> {
                         let mut o = J::obj()
                             .set("k", J::s("assign"))
                             .set("p", self.place(p))
+                            .set("pty", J::s(p.ty(self.body, tcx).ty.to_string()))
                             .set("rv", self.rvalue(rv))
                             .set("line", J::UInt(l.line as u128))
                             .set("exp", J::Bool(st.source_info.span.from_expansion()));
